@@ -1,5 +1,178 @@
-/- Lock-step oracle driver (stub: replaced when the model is built). -/
+/-
+`oracle timed`: lock-step oracle for the source stages `pipe.Emit` / `pipe.Unfold` on the virtual
+clock.  Per line  `<idx> <cfg> | <moves> || <observations>`  it instantiates the network model of
+Golem/Go/Sources.lean (the definitions the theorems of Props/C11 are about) and checks that the
+model admits the implementation's observation sequence.
+
+The engine keeps the SET of model states compatible with the observations so far; after every
+environment move it follows the process moves to rest (`Sources.quiesce`, all `select` branches).
+Move `t<d>` = `Sources.advance`: `d` virtual ms pass, wake-ups due in the window fire in order
+(EAGER time, what testing/synctest implements).
+
+moves: `t<d>` | `r0` (receive from out) | `r1` (receive from exx) | `x` cancel | `z` goroutine census |
+       `v` call log of the user function, flattened `(arg,time,arg,time,…)`
+-/
+import Golem.Go.Sources
 import Golem.Driver.Util
 namespace Golem.Driver.Timed
-def main : IO Unit := IO.eprintln "oracle: no driver for Timed yet"
+open Golem.Go Golem.Go.Sources Golem.Model Golem.Driver
+
+abbrev S := Src Int Int
+
+structure Conf where
+  stage : String := ""
+  mode : String := "pure"
+  cap : Nat := 0
+  freq : Nat := 1000
+  fn : Int := 2
+  seed : Int := 0
+  fail : List Int := []
+
+def parseConf (ws : List String) : Conf := Id.run do
+  let mut c : Conf := {}
+  for w in ws do
+    match w.splitOn "=" with
+    | [k, v] =>
+      match k with
+      | "stage" => c := { c with stage := v }
+      | "mode" => c := { c with mode := v }
+      | "cap" => c := { c with cap := v.toNat?.getD 0 }
+      | "freq" => c := { c with freq := v.toNat?.getD 1000 }
+      | "fn" => c := { c with fn := v.toInt?.getD 2 }
+      | "seed" => c := { c with seed := v.toInt?.getD 0 }
+      | "fail" => c := { c with fail := (v.splitOn ",").filterMap String.toInt? }
+      | _ => pure ()
+    | _ => pure ()
+  return c
+
+/-! user-function family — mirrors go/harness/lockstep/sources_test.go -/
+def modulus : Int := 1000003
+def emitVal (i : Nat) : Int := 10 * (i : Int) + 3
+def stepVal (fn x : Int) : Int :=
+  if fn == 1 then x + 1 else if fn == 2 then 2 * x else (3 * x + 1) % modulus
+
+def fails (c : Conf) (x : Int) : Bool := c.mode != "pure" && c.fail.contains x
+
+/-- the harness returns `0, errors.New(strconv.Itoa(x))` on a failing argument -/
+def mkFn (c : Conf) : Fn Int Int :=
+  { mode := if c.mode == "try" then .try_ else .lift,
+    freq := c.freq,
+    emitF := fun i => if fails c (i : Int) then .error (i : Int) else .ok (emitVal i),
+    unfoldF := fun s => if fails c s then (0, some s) else (stepVal c.fn s, none) }
+
+def showPc : Pc Int Int → String
+  | .eLoop i => s!"L{i}"
+  | .eSleep i w => s!"S{i}@{w}"
+  | .eApply i => s!"A{i}"
+  | .eOffer i v => s!"O{i}:{v}"
+  | .eCatch i e => s!"C{i}:{e}"
+  | .uOffer s => s!"o{s}"
+  | .uApply s => s!"a{s}"
+  | .uCatch s e => s!"c{s}:{e}"
+  | .closeExx => "X1"
+  | .closeOut => "X0"
+  | .exited => "Z"
+
+def callLog (p : S) : List Int :=
+  (p.callsE.flatMap fun (i, t) => [(i : Int), (t : Int)]) ++ (p.callsU.flatMap fun (s, t) => [s, (t : Int)])
+
+/-- the part of the state that determines the future and the observations -/
+def key (p : S) : String :=
+  s!"{showPc p.pc}|{p.out.buf}{p.out.closed}|{p.exx.buf}{p.exx.closed}|{p.cancelled}|{p.panicked}|{p.now}|{callLog p}"
+
+def dedup (ps : List S) : List S := Id.run do
+  let mut seen : List String := []
+  let mut out : List S := []
+  for p in ps do
+    let k := key p
+    if seen.contains k then continue
+    seen := k :: seen
+    out := p :: out
+  return out.reverse
+
+def lens (p : S) : String := s!"[;{p.out.buf.length},{p.exx.buf.length}]"
+
+def fuel : Nat := 100000
+
+def rest (P : Fn Int Int) (ps : List S) : List S := dedup (ps.flatMap (quiesce P fuel))
+
+def atRest (P : Fn Int Int) (p : S) : Bool := p.panicked || (procNext P p).isEmpty
+
+def showObs : Obs Int Int → String
+  | .ok => "ok" | .value v => s!"v{v}" | .err e => s!"e{e}" | .empty => "empty" | .closed => "closed" | .nope => "nope"
+
+def alive (p : S) : Nat := match p.pc with | .exited => 0 | _ => 1
+
+/-- successors of one state under one script move, each with the token the environment would see -/
+def applyMove (P : Fn Int Int) (p : S) (mv : String) : List (S × String) :=
+  let body := (mv.drop 1).toString
+  match mv.get 0 with
+  | 'r' =>
+    match body.toNat? with
+    | some k => (envNext P p (.recv k)).map fun (q, o) => (q, showObs o)
+    | none => [(p, "bad")]
+  | 'x' => (envNext P p .cancel).map fun (q, o) => (q, showObs o)
+  | 't' =>
+    match body.toNat? with
+    | some d => (advance P fuel (d + 1) d p).map fun q => (q, "ok")
+    | none => [(p, "bad")]
+  | 'z' => [(p, toString (alive p))]
+  | 'v' => [(p, "(" ++ ",".intercalate ((callLog p).map toString) ++ ")")]
+  | _ => [(p, "bad")]
+
+def check (P : Fn Int Int) (p0 : S) (moves obs : List String) : String := Id.run do
+  let mut states := rest P [p0]
+  match obs with
+  | [] => return "MISMATCH no observations"
+  | o0 :: orest =>
+    let want0 := (o0.drop 2).toString
+    if states.any fun p => !atRest P p then return "MISMATCH model does not come to rest initially"
+    states := states.filter fun p => !p.panicked && lens p == want0
+    if states.isEmpty then return s!"MISMATCH at init: impl={o0} model={(rest P [p0]).map lens}"
+    let mut os := orest
+    let mut idx := 0
+    for mv in moves do
+      match os with
+      | [] => return s!"MISMATCH at {idx} {mv}: implementation produced no observation (crashed?)"
+      | o :: r =>
+        os := r
+        let cands := states.flatMap fun p => applyMove P p mv
+        let body := (o.drop (mv.length + 1)).toString
+        let res := (body.splitOn "[").headD ""
+        let ln := "[" ++ ((body.splitOn "[").getD 1 "")
+        let hit := cands.filter fun (_, t) => t == res
+        if hit.isEmpty then
+          return s!"MISMATCH at {idx} {mv}: impl={res} model allows {(cands.map (·.2)).eraseDups}"
+        let after := rest P (hit.map (·.1))
+        if after.any fun p => !atRest P p then return s!"MISMATCH at {idx} {mv}: model does not come to rest"
+        let ok := after.filter fun p => !p.panicked && lens p == ln
+        if ok.isEmpty then
+          let pn := if after.any (·.panicked) then " (model can panic here)" else ""
+          return s!"MISMATCH at {idx} {mv}: impl lens={ln} model allows {(after.map lens).eraseDups}{pn}"
+        states := ok
+        idx := idx + 1
+    return "ok"
+
+def run (line : String) : String :=
+  match line.splitOn " || " with
+  | [script, obsS] =>
+    let obs := words obsS
+    match script.splitOn " | " with
+    | cfgS :: rest =>
+      let moves := words (rest.headD "")
+      let c := parseConf (words cfgS)
+      let P := mkFn c
+      match c.stage with
+      | "Emit" => check P (initEmit P.mode c.cap) moves obs
+      | "Unfold" => check P (initUnfold P.mode c.cap c.seed) moves obs
+      | s => s!"bad-op unknown source stage {s}"
+    | _ => "bad-op"
+  | _ => "bad-op"
+
+def step (line : String) : String :=
+  match line.splitOn " " with
+  | idx :: rest => idx ++ " " ++ run (" ".intercalate rest)
+  | _ => "bad-op"
+
+def main : IO Unit := eachLine step
 end Golem.Driver.Timed
